@@ -44,6 +44,26 @@ FRAGMENT = [
 ]
 # methods outside the fragment that fragment functions call: hand-model name, argument shape
 EXTERN = {}
+# hand-model counterpart of every function of the fragment.  When a body cannot be translated the
+# generated definition *is* this counterpart (recorded in `Gen.fallback`): that function is then tied to
+# the source by the correspondence run only, exactly like every function outside the fragment.
+FALLBACK = {
+    "len": "do pure (← getBuf).size", "is_empty": "do pure (decide ((← getBuf).size = 0))",
+    "is_full": "do pure (decide ((← getBuf).size = (← getBuf).cap))",
+    "inc_start": "incStart", "dec_start": "decStart", "inc_size": "incSize", "dec_size": "decSize",
+    "front_maybe_uninit_mut": "frontSlot", "front_maybe_uninit": "frontSlot",
+    "back_maybe_uninit": "backSlot", "back_maybe_uninit_mut": "backSlot",
+    "get_maybe_uninit": "getSlot", "get_maybe_uninit_mut": "getSlot",
+    "slices_uninit_mut": "slicesUninitMut", "as_slices": "asSlices", "as_mut_slices": "asSlices",
+    "front": "front?", "back": "back?", "get": "get?", "front_mut": "front?", "back_mut": "back?",
+    "get_mut": "get?", "nth_front": "nthFront?", "nth_back": "nthBack?",
+    "push_back": "pushBack", "push_front": "pushFront", "try_push_back": "tryPushBack",
+    "try_push_front": "tryPushFront", "pop_back": "popBack", "pop_front": "popFront",
+    "swap": "swap", "swap_remove_back": "swapRemoveBack", "swap_remove_front": "swapRemoveFront",
+    "drop_range": "fun r => dropRange r.1 r.2", "truncate_back": "truncateBack",
+    "truncate_front": "truncateFront", "clear": "clear", "remove": "remove",
+    "make_contiguous": "makeContiguous",
+}
 ASSERT_TAG = {"i index out-of-bounds": "swap_i", "j index out-of-bounds": "swap_j"}
 LEAN_KW = {"end", "from", "at", "in", "do", "then", "else", "fun", "let", "have", "show", "open", "by",
            "match", "with", "if", "where", "instance", "class", "structure", "def", "theorem", "this"}
@@ -162,7 +182,7 @@ class Parser:
                 stmts.append(("expr", e))
             elif self.at("}"):
                 tail = e
-            elif e[0] in ("if", "block", "unsafe"):
+            elif e[0] in ("if", "block", "unsafe", "match"):
                 # block-like expression statement without a semicolon
                 stmts.append(("expr", e))
             else:
@@ -205,7 +225,7 @@ class Parser:
             return ("ptuple", names)
         if self.at("mut"):
             self.eat()
-        return ("pvar", self.eat(kind="id"))
+        return ("pvar", self.eat(kind="id"))   # `_` included
 
     def expr(self):
         return self.range_()
@@ -327,6 +347,34 @@ class Parser:
             self.eat()
             b = self.block()
             return ("unsafe", b)
+        if v == "match":
+            self.eat()
+            scrut = self.expr_nostruct()
+            self.eat("{")
+            arms = []
+            while not self.at("}"):
+                pat = self.mpattern()
+                self.eat("=>")
+                if self.at("{"):
+                    body = self.block()
+                else:
+                    body = ("block", [], self.expr())
+                if self.at(","):
+                    self.eat()
+                arms.append((pat, body))
+            self.eat("}")
+            return ("match", scrut, arms)
+        if v == "if" and self.peek(1)[1] == "let":
+            self.eat(); self.eat()
+            pat = self.mpattern()
+            self.eat("=")
+            scrut = self.expr_nostruct()
+            th = self.block()
+            el = ("block", [], None)
+            if self.at("else"):
+                self.eat()
+                el = self.block() if not self.at("if") else ("block", [], self.atom())
+            return ("match", scrut, [(pat, th), (("mwild",), el)])
         if v == "if":
             self.eat()
             c = self.expr_nostruct()
@@ -352,6 +400,23 @@ class Parser:
                 return ("call", v, self.args())
             return ("path", v)
         raise TErr(f"unexpected token {v!r}")
+
+    def mpattern(self):
+        """patterns of `match` arms: `_`, `()`, `x`, `None`, `Some(p)`, `Ok(p)`, `Err(p)`"""
+        if self.at("("):
+            self.eat(); self.eat(")")
+            return ("munit",)
+        name = self.eat(kind="id")
+        if name == "_":
+            return ("mwild",)
+        if self.at("("):
+            self.eat()
+            sub = self.mpattern()
+            self.eat(")")
+            return ("mctor", name, sub)
+        if name in ("None",):
+            return ("mctor", name, None)
+        return ("mvar", name)
 
     def expr_nostruct(self):
         return self.expr()
@@ -448,6 +513,10 @@ class Emit:
             return self.ex_ref(("ref", True, e))
         if k == "try":
             raise TErr("`?` outside a let")
+        if k == "match":
+            pre, lines = self.emit_match(e)
+            t = self.fresh("r")
+            return pre + [f"let {t} ← (" + lines[0]] + lines[1:-1] + [lines[-1] + ")"], t, "any"
         if k == "if":
             # value-producing if
             body = self.emit_if_value(e)
@@ -658,6 +727,9 @@ class Emit:
                 return self.macro(e)
             if e[0] == "if":
                 return self.emit_if_stmt(e)
+            if e[0] == "match":
+                pre, lines = self.emit_match(e)
+                return pre + lines
             if e[0] == "unsafe" or e[0] == "block":
                 out = []
                 for x in e[1][1] if e[0] == "unsafe" else e[1]:
@@ -713,6 +785,36 @@ class Emit:
             pb, b, _ = self.ex(args[1])
             return pa + pb + [f"dassert (decide ({a} = {b}))"]
         raise TErr(f"macro {name}!")
+
+    def lean_pat(self, pat, skind):
+        k = pat[0]
+        if k == "mwild":
+            return "_"
+        if k == "munit":
+            return "()"
+        if k == "mvar":
+            self.kinds[pat[1]] = "elem" if skind in ("opt", "res") else "nat"
+            return lean_name(pat[1])
+        name, sub = pat[1], pat[2]
+        ctor = {"Some": "some", "None": "none", "Ok": "Except.ok", "Err": "Except.error"}.get(name)
+        if not ctor:
+            raise TErr(f"pattern {name}(..)")
+        if sub is None:
+            return ctor
+        return f"{ctor} {self.lean_pat(sub, skind)}"
+
+    def emit_match(self, e):
+        """(pre statements, lines) of a `match` whose arms are blocks ending in a value"""
+        _, scrut, arms = e
+        p, v, kk = self.ex(scrut)
+        lines = [f"match {v} with"]
+        for pat, body in arms:
+            saved = dict(self.kinds)
+            lp = self.lean_pat(pat, kk)
+            lines.append(f"| {lp} => do")
+            lines += ind(self.body(body[1], body[2]))
+            self.kinds = saved
+        return p, lines
 
     def emit_if_stmt(self, e):
         """an `if` in statement position whose value is unit"""
@@ -780,6 +882,9 @@ class Emit:
             return out + p + [f"if {cv} then do"] + ind(tb) + ["else do"] + ind(eb)
         if tail[0] == "if" and tail[3] is None:
             return out + self.emit_if_stmt(tail) + ["pure ()"]
+        if tail[0] == "match":
+            pre, lines = self.emit_match(tail)
+            return out + pre + lines
         if tail[0] in ("unsafe",):
             inner = tail[1]
             return out + self.body(inner[1], inner[2])
@@ -921,6 +1026,10 @@ def translate(src, name, fragment):
     return head + "\n" + "\n".join(ind(lines)), rkind
 
 
+# signatures as translated from the pinned source (used only when a signature itself cannot be parsed)
+REF_SIG = {}
+
+
 def main():
     src = strip_comments(open(sys.argv[1]).read())
     out = sys.argv[2]
@@ -932,23 +1041,59 @@ def main():
             kinds[n] = parse_sig(sig)[1][1]
         except TErr:
             pass
-    defs, failed = [], []
-    done = {}
+    failed = []
+    texts, rkinds = {}, {}
     for n in FRAGMENT:
         try:
-            avail = {k: v for k, v in kinds.items() if k in done or k == n}
-            text, rk = translate(src, n, avail)
-            defs.append(text)
-            done[n] = rk
+            text, rk = translate(src, n, dict(kinds))
+            texts[n], rkinds[n] = text, rk
+            continue
         except TErr as e:
             failed.append((n, str(e)))
         except Exception as e:                       # a parser bug is a translation failure, not a crash
             failed.append((n, f"internal: {type(e).__name__}: {e}"))
+    # definitions in dependency order (callees first); a call cycle cannot be emitted: fall back
+    deps = {n: set(m for m in re.findall(r"\bGen\.(\w+)", t) if m != n and m in FALLBACK) for n, t in texts.items()}
+    order, state = [], {}
+
+    def visit(n, stack):
+        if state.get(n) == 2 or n not in texts:
+            return
+        if state.get(n) == 1:
+            raise TErr("call cycle " + " -> ".join(stack + [n]))
+        state[n] = 1
+        for m in sorted(deps[n], key=FRAGMENT.index):
+            visit(m, stack + [n])
+        state[n] = 2
+        order.append(n)
+    for n in FRAGMENT:
+        try:
+            visit(n, [])
+        except TErr as e:
+            failed.append((n, str(e)))
+            texts.pop(n, None)
+            state[n] = 2
+    fb = {}
+    for n, why in failed:
+        # fall back to the hand model's definition, with the signature the translation would have had
+        try:
+            sig, _ = find_fn(src, n)
+            params, (rty, rkind) = parse_sig(sig)
+        except Exception:
+            params, rty, rkind = REF_SIG.get(n, ([], "Unit", "unit"))
+        ptys = " → ".join([t for _, t, _ in params] + [f"M ({rty})"])
+        why = why.replace("-/", "- /")
+        fb[n] = (f"/-- `fn {n}` could not be translated on this run ({why}): the hand model\'s definition -/\n"
+                 f"def Gen.{n} : {ptys} := {FALLBACK[n]}")
+    defs = [fb[n] for n in FRAGMENT if n in fb] + [texts[n] for n in order if n in texts]
+    done = {n: 1 for n in FRAGMENT}
     L = ["-- GENERATED by /verif/translate/t3_core.py from /repo/src/lib.rs — do not edit.",
          "import CircBuf.GenPrelude", "import CircBuf.Model", "set_option linter.unusedVariables false", "namespace CircBuf", ""]
     L.append("\n\n".join(defs))
     L += ["", "/-- functions of the fragment that were translated on this run -/",
-          "def Gen.translated : List String := [" + ", ".join(f'"{n}"' for n in done) + "]", "", "end CircBuf", ""]
+          "def Gen.translated : List String := [" + ", ".join(f'"{n}"' for n in done if n not in dict(failed)) + "]",
+          "/-- functions whose body is outside the translated subset on this run: tied by the correspondence only -/",
+          "def Gen.fallback : List String := [" + ", ".join(f'"{n}"' for n, _ in failed) + "]", "", "end CircBuf", ""]
     text = "\n".join(L)
     try:
         old = open(out).read()
@@ -958,8 +1103,9 @@ def main():
         open(out, "w").write(text)
     for n, why in failed:
         print(f"T3: cannot translate `{n}`: {why}")
-    print(f"T3: {'unchanged' if old == text else 'regenerated'}: {len(done)}/{len(FRAGMENT)} functions translated")
-    sys.exit(0 if done else 3)
+    ntr = len(done) - len(failed)
+    print(f"T3: {'unchanged' if old == text else 'regenerated'}: {ntr}/{len(FRAGMENT)} functions translated")
+    sys.exit(0 if ntr else 3)
 
 
 if __name__ == "__main__":
